@@ -103,6 +103,11 @@ def check_case(work, groups, world, coloc, res, tag):
         return res.violation('greedy_assignment mutated its arguments', case)
     if out != out2:
         return res.violation(f'two calls with equal arguments returned {out} and {out2}', case)
+    return post(work, groups, world, coloc, out, res, case)
+
+
+def post(work, groups, world, coloc, out, res, case):
+    """post-conditions of one greedy_assignment result (also used on the calls made by the repository's own tests)."""
     if set(out) != set(work) or any(set(out[l]) != set(work[l]) for l in work):
         return res.violation(f'result keys {out} do not mirror the work dictionary', case)
     valid = {w for g in groups for w in g}
@@ -148,7 +153,8 @@ def check_case(work, groups, world, coloc, res, tag):
         res.count('replay_accepts')
     if len(work) >= 2 and len(valid) >= 2:
         res.nontrivial.add(stable_hash(work, groups, coloc))
-    res.add('digest_parts', stable_hash(tag, out))
+    if case.get('tag') is not None:
+        res.add('digest_parts', stable_hash(case['tag'], out))
     res.sample(dict(case, result=out))
     return out
 
@@ -234,12 +240,17 @@ def plan(tier, seed):
                               stride=tier_value(tier, 7, 1)))
         for part in range(tier_value(tier, 1, 4)):
             specs.append(dict(kind='random', part=part, hashseed=hs, count=tier_value(tier, 300, 40000), budget_s=tier_value(tier, 40, 300)))
+    # the repository's own tests as one more workload: every greedy_assignment call they make is checked by the same post-conditions
+    specs.append(dict(kind='repo_tests', part=0, files=tier_value(tier, ['tests/assignment_test.py', 'tests/preconditioner_test.py'], ['tests']), budget_s=900))
     return specs
 
 
 def run_shard(spec, res):
     dl = Deadline(spec['budget_s'])
     tag0 = f'{spec["kind"]}-{spec["part"]}'
+    if spec['kind'] == 'repo_tests':
+        from kverif import repotests
+        return repotests.run('C17', spec['files'], res)
     if spec['kind'] == 'exhaustive':
         for i, (work, groups, world, coloc) in enumerate(exhaustive_cases()):
             if i % spec['parts'] != spec['part'] or (i // spec['parts']) % spec['stride'] != spec['seed'] % spec['stride']:
